@@ -103,7 +103,7 @@ func checkCase(c Case) (out evid.Outcome) {
 			if err != nil {
 				panic("harness: " + err.Error())
 			}
-			for _, m := range model.ExpandMethod(op.M) {
+			for _, m := range model.ExpandMethods(op.M) {
 				if trees[m] == nil {
 					trees[m] = route.NewTree()
 				}
@@ -186,7 +186,7 @@ func checkCase(c Case) (out evid.Outcome) {
 			var mregs []model.MRoute
 			for i, rs := range regs {
 				on := false
-				for _, m := range model.ExpandMethod(rs.m) {
+				for _, m := range model.ExpandMethods(rs.m) {
 					if m == op.M {
 						on = true
 					}
@@ -331,7 +331,7 @@ func genCase(t *rapid.T) Case {
 				}
 			}
 			ok := true
-			for _, mm := range model.ExpandMethod(m) {
+			for _, mm := range model.ExpandMethods(m) {
 				// "/a/?b" next to "/a/b" is not classified by C08 (EITHER) but the
 				// router accepts it, so it belongs to the histories C10 speaks about
 				if v, why := g.Check(mm, d); v != model.MustAccept && why != "optional-twin" {
@@ -341,7 +341,7 @@ func genCase(t *rapid.T) Case {
 			if !ok {
 				continue
 			}
-			for _, mm := range model.ExpandMethod(m) {
+			for _, mm := range model.ExpandMethods(m) {
 				g.Add(mm, d)
 			}
 			regs = append(regs, have{m, d.Source()})
@@ -355,7 +355,7 @@ func genCase(t *rapid.T) Case {
 		default: // request
 			h := regs[rapid.IntRange(0, len(regs)-1).Draw(t, "qi")]
 			d := rt.Deriv(h.r)
-			ms := model.ExpandMethod(h.m)
+			ms := model.ExpandMethods(h.m)
 			m := ms[rapid.IntRange(0, len(ms)-1).Draw(t, "qm")]
 			if rapid.IntRange(0, 9).Draw(t, "oddm") == 0 {
 				m = []string{"BREW", "", "get", "PUT"}[rapid.IntRange(0, 3).Draw(t, "om")]
